@@ -48,7 +48,7 @@ package criteria_concealment
 //@   ensures [not_considered] forall i int :: 0 <= i && i < len(resParams.NotConsideredAlternatives) ==> model.extendedBy((*result.notConsideredAlternatives)[i], resParams.NotConsideredAlternatives[i], newCriterion.Id)
 
 //@ func (*CriteriaConcealment).addCriterion
-//@   property C18 C07
+//@   property C18 C07 C01 C09
 //@   requires model.coherent(*listener, *resParams) && model.coherent(*listener, *originalParams) && len(originalParams.Criteria) > 0
 //@   requires forall i int, j int :: 0 <= i && i < j && j < len(resParams.ConsideredAlternatives) ==> resParams.ConsideredAlternatives[i].Id != resParams.ConsideredAlternatives[j].Id
 //@   requires forall i int, j int :: 0 <= i && i < j && j < len(resParams.NotConsideredAlternatives) ==> resParams.NotConsideredAlternatives[i].Id != resParams.NotConsideredAlternatives[j].Id
@@ -64,7 +64,7 @@ package criteria_concealment
 
 //@ func (*CriteriaConcealment).Apply
 //@   refines model.Bias.Apply
-//@   property C18 C07
+//@   property C18 C07 C01 C09
 //@   requires model.coherent(*listener, *current) && model.coherent(*listener, *original) && len(original.Criteria) > 0
 //@   requires forall i int, j int :: 0 <= i && i < j && j < len(current.ConsideredAlternatives) ==> current.ConsideredAlternatives[i].Id != current.ConsideredAlternatives[j].Id
 //@   requires forall i int, j int :: 0 <= i && i < j && j < len(current.NotConsideredAlternatives) ==> current.NotConsideredAlternatives[i].Id != current.NotConsideredAlternatives[j].Id
